@@ -220,6 +220,14 @@ structure Split (R : Type) where
 def Split.init {R : Type} (limit : Nat) : Split R :=
   { written := 0, fileCount := 1, limit := limit, done := [], cur := some (0, Life.init) }
 
+/-- The rotation of `SplitWriter.write` as extracted is the one modelled below: test `self.written >= self.count`, then
+    `flush(); close(); written = 0; writer = RecordWriter(_next_path())`, and `_next_path` pads the running index with
+    `rjust(suffix_length, "0")` into `with_suffix`. -/
+def splitShapeOk : Bool :=
+  Gen.splitRotateTest == "self.written >= self.count" &&
+  Gen.splitRotateSequence == ["self.flush()", "self.close()", "self.written = 0", "self.writer = RecordWriter("] &&
+  Gen.splitNextPathShape
+
 /-- `SplitWriter.write / flush / close`; `exit` = `flush(); close()` -/
 def splitStep {R : Type} (F : Flags) (s : Split R) : Op R → Split R × Outcome
   | .write r =>
@@ -229,7 +237,7 @@ def splitStep {R : Type} (F : Flags) (s : Split R) : Op R → Split R × Outcome
       match doWrite F w r with
       | (w1, .raised) => ({ s with cur := some (i, w1) }, .raised)
       | (w1, .ok) =>
-        if decide (s.written + 1 ≥ s.limit) && Gen.splitRotateTest == "self.written >= self.count" then
+        if decide (s.written + 1 ≥ s.limit) && splitShapeOk then
           -- self.flush(); self.close(); self.written = 0; self.writer = RecordWriter(self._next_path(), …)
           let w2 := (doClose F (doFlush F w1).1).1
           ({ s with written := 0, done := s.done ++ [(i, w2)], cur := some (s.fileCount, Life.init),
@@ -261,18 +269,20 @@ def Split.parts {R : Type} (s : Split R) : List (Nat × Life R) :=
 inductive Frame (D R : Type) where
   | magic
   | desc (d : D)
-  | rec (d : D) (r : R)
+  | record (d : D) (r : R)
   deriving DecidableEq, Repr
 
-/-- `RecordStreamWriter` for one part: header first, then every record preceded by its descriptor unless this
-    packer has already emitted that descriptor -/
+/-- `RecordStreamWriter` after the header: every record preceded by its descriptor unless this packer has already
+    emitted that descriptor -/
+def emitRecords {D R : Type} [DecidableEq D] (known : List D) : List (D × R) → List (Frame D R)
+  | [] => []
+  | (d, r) :: rest =>
+    if known.contains d then Frame.record d r :: emitRecords known rest
+    else Frame.desc d :: Frame.record d r :: emitRecords (d :: known) rest
+
+/-- one part (one file): header first -/
 def emitPart {D R : Type} [DecidableEq D] (recs : List (D × R)) : List (Frame D R) :=
-  let rec go (known : List D) : List (D × R) → List (Frame D R)
-    | [] => []
-    | (d, r) :: rest =>
-      if known.contains d then Frame.rec d r :: go known rest
-      else Frame.desc d :: Frame.rec d r :: go (d :: known) rest
-  Frame.magic :: go [] recs
+  Frame.magic :: emitRecords [] recs
 
 /-- `RecordStreamReader.__iter__` after `readheader`: a repeated header is skipped, a descriptor is registered, a
     record is decoded with its registered descriptor (`none`: a record whose descriptor was never registered) -/
@@ -280,7 +290,7 @@ def readFrames {D R : Type} [DecidableEq D] : List D → List (Frame D R) → Op
   | _, [] => some []
   | known, .magic :: rest => readFrames known rest
   | known, .desc d :: rest => readFrames (d :: known) rest
-  | known, .rec d r :: rest =>
+  | known, .record d r :: rest =>
     if known.contains d then (readFrames known rest).map (fun out => (d, r) :: out) else none
 
 /-- `readheader` + iteration over a whole file -/
@@ -330,15 +340,18 @@ def seqLoop (taken : Name → Bool) (cand : Nat → Name) : Nat → Nat → Opti
   | fuel + 1, k => if taken (cand k) then seqLoop taken cand fuel (k + 1) else some k
 
 /-- `rotate_existing_file`: an existing target is renamed (in place in the directory listing) to the first free
-    candidate. `rotateNeverOverwrites = false` is the pinned behaviour: candidate 0 unconditionally. -/
-def rotateExisting {R : Type} (fs : FS R) (path stamp : Name) : Option (FS R) :=
+    candidate. `neverOverwrite = false` is the behaviour of the pinned revision: candidate 0 unconditionally
+    (`os.rename` replaces an existing destination). -/
+def rotateExistingWith {R : Type} (neverOverwrite : Bool) (fs : FS R) (path stamp : Name) : Option (FS R) :=
   if !fs.has path then some fs
   else
-    let pick := if Gen.rotateNeverOverwrites then seqLoop fs.has (rotCandidate path stamp) (fs.length + 1) 0 else some 0
+    let pick := if neverOverwrite then seqLoop fs.has (rotCandidate path stamp) (fs.length + 1) 0 else some 0
     pick.map fun k =>
       let dst := rotCandidate path stamp k
-      -- os.rename replaces an existing destination
       (fs.filter (fun f => f.name != dst || f.name == path)).map (fun f => if f.name == path then { f with name := dst } else f)
+
+def rotateExisting {R : Type} (fs : FS R) (path stamp : Name) : Option (FS R) :=
+  rotateExistingWith Gen.rotateNeverOverwrites fs path stamp
 
 structure Tmpl (R : Type) where
   currentPath : Option Name
@@ -349,7 +362,12 @@ structure Tmpl (R : Type) where
 def tmplWrite {R : Type} (s : Tmpl R) (path stamp : Name) (r : R) : Option (Tmpl R) :=
   let opened : Option (FS R) :=
     if s.currentPath == some path then some s.fs
-    else (rotateExisting s.fs path stamp).map (fun fs => fs ++ [{ name := path, origin := some path, content := [] }])
+    else
+      -- without the rotation, opening the path for writing would truncate what is there
+      let cleared : Option (FS R) :=
+        if Gen.templateRotatesBeforeOpen then rotateExisting s.fs path stamp
+        else some (s.fs.filter (fun f => f.name != path))
+      cleared.map (fun fs => fs ++ [{ name := path, origin := some path, content := [] }])
   opened.map fun fs =>
     { currentPath := some path,
       fs := fs.map (fun f => if f.name == path then { f with content := f.content ++ [r] } else f) }
